@@ -14,6 +14,7 @@
 import Driver.Family
 import PgVerif.Model.Wal
 import PgVerif.Spec.Wal
+import PgVerif.Spec.WalLayout
 import PgVerif.Gen.Wal
 import PgVerif.Gen.Mutate
 namespace Driver.Fam.Wal
@@ -172,14 +173,30 @@ def segTags (s : WalSegment) : List String :=
   (if s.records.any (fun r => r.blocks.any (·.image.isSome)) then ["image"] else []) ++
   (if s.records.any (fun r => r.blocks.any (·.rel.isNone)) then ["samerel"] else [])
 
+open Spec.Wal in
+/-- the two descriptions of the layout agree on this segment: same bytes, and every record placed at the
+position the stream arithmetic gives, in the class (`whole`/`cut`/`straddle`) the arithmetic gives -/
+def layoutAgrees (s : WalSegment) (file : Bytes) : Bool :=
+  let l := s.layout
+  l.bytes ++ zeros (8192 * s.tailPages) == file &&
+  l.placed.map (·.lsn) == s.offsets.map s.lsnAt &&
+  l.placed.map (·.record) == s.records &&
+  (l.placed.zip s.offsets).all fun po => match po.1 with
+    | .whole _ r => recordOnOnePage po.2 r.totLen
+    | .cut _ r => headerOnOnePage po.2 && !recordOnOnePage po.2 r.totLen
+    | .straddle _ _ => !headerOnOnePage po.2
+
 def walsegGen (seed idx size : Nat) : Case :=
   let s : Spec.Wal.WalSegment :=
     if idx < boundarySegs.length then boundarySegs.getD idx default
     else (Gen.Wal.genSegment (max size 1) (idx % 4 == 3)).run' (Prng.ofSeed seed idx)
   let file := Spec.Wal.encSegment s
   let model := Model.Wal.parseWALFile file
-  let tags := segTags s ++ kfTags s ++ (if s.records.isEmpty then [] else ["nt"])
-  { tags, model := showM showFileM model, spec := showRecsS s.view, args := [hexRle file] }
+  let agree := layoutAgrees s file
+  let tags := segTags s ++ kfTags s ++ [if agree then "layout=agree" else "layout=MISMATCH"] ++
+    (if s.records.isEmpty then [] else ["nt"])
+  { tags, model := showM showFileM model, spec := if agree then showRecsS s.view else "LAYOUT-MISMATCH",
+    args := [hexRle file] }
 
 def walseg : Family := { name := "walseg", gen := walsegGen, eval := walsegEval, fixed := boundarySegs.length }
 
